@@ -7,6 +7,7 @@ import itertools
 from sa.astx import assigned_targets, call_attr, call_name, dotted, src, statements, walk_local
 from sa.effects import class_accesses
 from sa.selftest import Mutant, Silent
+from sa.source import AnalysisError
 from sa.props._lib_e import (assigns_self, call_in, calls_named, check_name_encoder, check_token_validator, http_interp, is_const, local_values, make_env,
                              no_exc, ordered, resolve_local, self_attr, walk)
 
@@ -28,7 +29,8 @@ EXPLANATION = (
     "that CR, LF (and ';') are replaced by one space, other bytes kept, and a chunk is hex(len) CRLF data CRLF; (c) by walking Request.write / "
     "finish under all combinations of version, Content-Length, method, code, data that chunked is chosen iff HTTP/1.1 and no Content-Length and "
     "not HEAD and code not in {204,304}, HEAD/204/304 never write a body and disable later writes, empty data is never chunk-encoded, the "
-    "terminator 0 CRLF CRLF is written iff chunked after the headers were forced out, once. Not decided: that an independent parser reads "
+    "terminator 0 CRLF CRLF is written iff chunked after the headers were forced out, once. (d) persistence and framing agree: over version x Connection header x Content-Length x method x code, whenever checkPersistence keeps the connection open "
+    "every body-carrying response is Content-Length- or chunked-delimited (close-delimited responses only on connections that close). Not decided: that an independent parser reads "
     "back exactly the headers set; Content-Length supplied by the application matching the body."
 )
 ASSUMPTIONS = [
@@ -395,6 +397,68 @@ def _write_body(ctx, I):
     ctx.check(bool(sw) and w is None, "body/headers-once", q + " | startedWriting", "startedWriting is not set before the headers are written", witness=g.describe(w))
 
 
+def _persistence_framing(ctx, I):
+    """Persistence and framing agree: whenever HTTPChannel.checkPersistence keeps the connection open after a response
+    that may carry a body, Request.write makes that response self-delimiting (Content-Length present or chunked); a
+    close-delimited response is allowed only on a connection that is then closed.  Both decisions are taken from the code:
+    checkPersistence is walked under (version, Connection header), Request.write under (version, Content-Length, method, code)."""
+    fc = ctx.func(HTTP, "HTTPChannel.checkPersistence")
+    gc = ctx.cfg(fc)
+    qc = Q + "HTTPChannel.checkPersistence"
+    rq, vp = fc.args.args[1].arg, fc.args.args[2].arg
+    fw = ctx.func(HTTP, "Request.write")
+    gw = ctx.cfg(fw)
+    dp = fw.args.args[1].arg
+    setc = assigns_self(gw, "chunked", lambda v: isinstance(v, ast.Constant) and bool(v.value))
+    ctx.need(setc, "self.chunked = 1 in Request.write")
+    # the value stored in self.persistent is this decision for the version that becomes clientproto
+    fa = ctx.func(HTTP, "HTTPChannel.allHeadersReceived")
+    sets = [st for st in ast.walk(fa) if isinstance(st, ast.Assign) and any(self_attr(t, "persistent") for t in st.targets)]
+    ok = bool(sets) and all(isinstance(st.value, ast.Call) and call_name(st.value) == "self.checkPersistence" and len(st.value.args) == 2 and
+                            src(st.value.args[1]) == "self._version" for st in sets)
+    ctx.check(ok, "persistence/decision-stored", Q + "HTTPChannel.allHeadersReceived", "self.persistent is not checkPersistence(request, self._version)")
+    CLTERM = "self.responseHeaders.getRawHeaders(b'Content-Length')"
+
+    def chunked(ver, cl, meth, code):
+        env = make_env({"self.finished": 0, "self._disconnected": False, "self.startedWriting": 0, "self.clientproto": ver, CLTERM: cl, "self.method": meth,
+                        "self.code": code, dp: b"x", "self.chunked": 0, "self.lastModified": None, "self.etag": None, "self.cookies": [], "self.sentLength": 0})
+        und = []
+        vis = walk(gw, I, env, undecided=und)
+        loose = [u for u in und if gw.path([u], setc, edge_ok=no_exc)]
+        if loose:
+            raise AnalysisError(f"Request.write: the chunked decision depends on a term the evaluator cannot fix: {src(gw.node(loose[0]).ast)[:80]}")
+        return any(n in vis for n in setc)
+
+    for ver in (b"HTTP/1.1", b"HTTP/1.0"):
+        for conn in (None, [b"close"], [b"keep-alive"], [b"Keep-Alive"], [b"keep-alive close"], [b"close keep-alive"], [b"upgrade"], [b"KEEP-ALIVE"]):
+            results = []
+
+            def on(node, e, results=results):
+                if node.kind == "stmt" and isinstance(node.ast, ast.Return) and node.ast.value is not None:
+                    try:
+                        results.append(bool(I.ev(node.ast.value, e)))
+                    except Exception:
+                        results.append(None)
+            walk(gc, I, make_env({vp: ver, f"{rq}.requestHeaders.getRawHeaders(b'Connection')": conn}), on_node=on)
+            label = f"{qc} | {ver.decode()} Connection: {conn[0].decode() if conn else '(absent)'}"
+            if len(set(results)) != 1 or results[0] is None:
+                raise AnalysisError(f"checkPersistence decision not decidable for {label}: {results}")
+            persistent = results[0]
+            bad = None
+            for cl in (None, [b"5"]):
+                for meth in (b"GET", b"HEAD", b"POST"):
+                    for code in (200, 204, 304, 404):
+                        delimited = cl is not None or meth == b"HEAD" or code in (204, 304) or chunked(ver, cl, meth, code)
+                        if persistent and not delimited and bad is None:
+                            bad = (meth, code)
+            ctx.check(bad is None, "persistence/response-self-delimiting", label,
+                      (f"the connection stays open after a {ver.decode()} {bad[0].decode()} {bad[1]} response that has neither Content-Length nor chunked coding: "
+                       "its end is never marked and the next response is read as part of its body") if bad else "",
+                      detail=f"persistent={persistent}; every body-carrying response is Content-Length/chunked delimited or the connection closes")
+            if ver == b"HTTP/1.1" and conn is not None and b"close" in [t.lower() for t in conn[0].split(b" ")]:
+                ctx.check(not persistent, "persistence/close-honoured", label, "an HTTP/1.1 request with 'Connection: close' keeps the connection persistent")
+
+
 def _finish(ctx, I):
     f = ctx.func(HTTP, "Request.finish")
     g = ctx.cfg(f)
@@ -438,7 +502,8 @@ def check(ctx):
     for name, fn in (("sanitisers", lambda: _sanitisers(ctx, I)), ("token validator", lambda: check_token_validator(ctx, I)),
                      ("header name encoder", lambda: check_name_encoder(ctx, I)), ("Headers store", lambda: _headers_store(ctx)),
                      ("writeHeaders", lambda: _write_headers(ctx)), ("status line provenance", lambda: _status_provenance(ctx)),
-                     ("cookies", lambda: _cookies(ctx)), ("Request.write", lambda: _write_body(ctx, I)), ("Request.finish", lambda: _finish(ctx, I))):
+                     ("cookies", lambda: _cookies(ctx)), ("Request.write", lambda: _write_body(ctx, I)), ("Request.finish", lambda: _finish(ctx, I)),
+                     ("persistence vs framing", lambda: _persistence_framing(ctx, I))):
         with ctx.section(name):
             fn()
 
@@ -446,6 +511,10 @@ def check(ctx):
 MUTANTS = [
     Mutant('token-regex-dollar-accepts-trailing-newline', ABNF, '    for c in b:\n        if c not in (\n            b"ABCDEFGHIJKLMNOPQRSTUVWXYZabcdefghijklmnopqrstuvwxyz"  # ALPHA\n            b"0123456789"  # DIGIT\n            b"!#$%&\'*+-.^_`|~"\n        ):\n            return False\n    return b != b""\n', '    return _TOKEN_RE.match(b) is not None\n', more=[(ABNF, '"""\n\n\ndef _istoken', '"""\n\nimport re\n\n_TOKEN_RE = re.compile(rb"[A-Za-z0-9!#$%&\'*+\\-.^_`|~]+$")\n\n\ndef _istoken')], expect_rule='byte-class/exact'),
     Mutant('name-cached-by-helper-before-validation', HDRS, '        if not _istoken(bytes_name):\n            raise InvalidHeaderName(bytes_name)\n\n        result = b"-".join([word.capitalize() for word in bytes_name.split(b"-")])\n', '        result = self._remember(name, bytes_name)\n        if not _istoken(result):\n            raise InvalidHeaderName(bytes_name)\n        return result\n\n    def _remember(self, name, bytes_name):\n        result = b"-".join([word.capitalize() for word in bytes_name.split(b"-")])\n', expect_rule='header-name/cache-after-validation'),
+    Mutant("http10-keep-alive-made-persistent", HTTP, "                return True\n        else:\n            return False\n\n    def requestDone", "                return True\n        else:\n            return b\"keep-alive\" in tokens\n\n    def requestDone",
+           expect_rule="persistence/response-self-delimiting"),
+    Mutant("every-version-persistent", HTTP, "        if version == b\"HTTP/1.1\":\n            if b\"close\" in tokens:", "        if version.startswith(b\"HTTP/1.\"):\n            if b\"close\" in tokens:",
+           expect_rule="persistence/response-self-delimiting"),
     Mutant("F20-revert-reason-unsanitised", HTTP, "            reason = _sanitizeLinearWhitespace(self.code_message)", "            reason = self.code_message",
            expect_rule="status/reason-sanitised"),
     Mutant("addRawHeader-skips-sanitiser", HDRS, "        self._rawHeaders.setdefault(_nameEncoder.encode(name), []).append(\n            _sanitizeLinearWhitespace(\n                value.encode(\"utf8\") if isinstance(value, str) else value\n            )\n        )",
@@ -486,6 +555,8 @@ SILENT = [
     Silent('token-regex-Z-anchored', ABNF, '    for c in b:\n        if c not in (\n            b"ABCDEFGHIJKLMNOPQRSTUVWXYZabcdefghijklmnopqrstuvwxyz"  # ALPHA\n            b"0123456789"  # DIGIT\n            b"!#$%&\'*+-.^_`|~"\n        ):\n            return False\n    return b != b""\n', '    return _TOKEN_RE.match(b) is not None\n', more=[(ABNF, '"""\n\n\ndef _istoken', '"""\n\nimport re\n\n_TOKEN_RE = re.compile(rb"[A-Za-z0-9!#$%&\'*+\\-.^_`|~]+\\Z")\n\n\ndef _istoken')]),
     Silent('token-regex-fullmatch', ABNF, '    for c in b:\n        if c not in (\n            b"ABCDEFGHIJKLMNOPQRSTUVWXYZabcdefghijklmnopqrstuvwxyz"  # ALPHA\n            b"0123456789"  # DIGIT\n            b"!#$%&\'*+-.^_`|~"\n        ):\n            return False\n    return b != b""\n', '    return _TOKEN_RE.fullmatch(b) is not None\n', more=[(ABNF, '"""\n\n\ndef _istoken', '"""\n\nimport re\n\n_TOKEN_RE = re.compile(rb"[A-Za-z0-9!#$%&\'*+\\-.^_`|~]+")\n\n\ndef _istoken')]),
     Silent('name-cached-by-helper-after-validation', HDRS, '        if not _istoken(bytes_name):\n            raise InvalidHeaderName(bytes_name)\n\n        result = b"-".join([word.capitalize() for word in bytes_name.split(b"-")])\n', '        if not _istoken(bytes_name):\n            raise InvalidHeaderName(bytes_name)\n        return self._remember(name, bytes_name)\n\n    def _remember(self, name, bytes_name):\n        result = b"-".join([word.capitalize() for word in bytes_name.split(b"-")])\n'),
+    Silent("persistence-early-return", HTTP, "        if version == b\"HTTP/1.1\":\n            if b\"close\" in tokens:\n                request.responseHeaders.setRawHeaders(b\"Connection\", [b\"close\"])\n                return False\n            else:\n                return True\n        else:\n            return False\n",
+           "        if version != b\"HTTP/1.1\":\n            return False\n        if b\"close\" not in tokens:\n            return True\n        request.responseHeaders.setRawHeaders(b\"Connection\", [b\"close\"])\n        return False\n"),
     Silent("reason-sanitised-inline", HTTP, "            reason = _sanitizeLinearWhitespace(self.code_message)\n", "",
            more=[(HTTP, "self.channel.writeHeaders(version, code, reason, self.responseHeaders)", "self.channel.writeHeaders(\n                version, code, _sanitizeLinearWhitespace(self.code_message), self.responseHeaders\n            )")]),
     Silent("rename-reason-local", HTTP, "            reason = _sanitizeLinearWhitespace(self.code_message)\n", "            phrase = _sanitizeLinearWhitespace(self.code_message)\n",
